@@ -89,6 +89,8 @@ def build(n=4, tier="quick"):
     ents = []
     # A. widths: the bit entries of the operation catalogue, re-judged under C16 (extra widths in the thorough tier)
     for e in make_widths(n) + [a for a in make_asserts(n) if "positive" in a.tags]:
+        if "pow" in e.tags:
+            continue             # operand reuse after a secret-exponent power belongs to C05
         ents.append(e)
     names = list(SHAPES) if tier != "quick" else ["bool", "int3", "int5", "int8", "int17", "list_b_i3", "rep_i3x2", "list_i5_repb2"]
     for nm in names:
